@@ -31,6 +31,7 @@ pub mod c03p;
 pub mod c05;
 pub mod c06;
 pub mod c09;
+pub mod c09f;
 pub mod c10;
 pub mod c13;
 pub mod c19;
@@ -60,6 +61,7 @@ pub fn registry() -> Vec<(&'static str, fn())> {
     v.extend_from_slice(c05::LIST);
     v.extend_from_slice(c06::LIST);
     v.extend_from_slice(c09::LIST);
+    v.extend_from_slice(c09f::LIST);
     v.extend_from_slice(c19::LIST);
     v.extend_from_slice(c10::LIST);
     v.extend_from_slice(c10::z::LIST);
